@@ -139,7 +139,7 @@ def materialise(case):
     fresh = build_two_level(r, arg) if kind == "two" else build(r, tuple(arg))
     if fresh is None:
         return None
-    for k in ("swap", "cited", "recipe", "twice", "lower"):
+    for k in ("swap", "cited", "recipe", "twice", "lower", "manyrefs"):
         if k in case:
             fresh[k] = case[k]
     if case.get("twice") and fresh.get("mods"):
@@ -254,10 +254,12 @@ def check_two_level(ctx, case):
         if case.get("cited"):
             # documented inputs: a reference and small cited features all along the record (those inside the kept
             # stretch travel with the product into the next level)
-            base = 300 + 10 * papers.setdefault(rid, len(papers))          # every record its own four papers
-            r.annotations["references"] = [impl.mk_ref(base + q_) for q_ in range(4)]     # ≥ 10 papers by level 2
+            nper = 60 if case.get("manyrefs") else 4
+            base = 300 + 100 * papers.setdefault(rid, len(papers))         # every record its own papers
+            r.annotations["references"] = [impl.mk_ref(base + q_) for q_ in range(nper)]  # ≥ 10 (≥ 100) papers by level 2
             for p in range(0, len(word) - 1):
-                r.features.append(impl.mk_feature(impl.Feat(1, "u7", ("i%d" % (1 + p % 4),), ((p, p + 1, 1),))))
+                cs = ("i%d" % (1 + p % 4),) if nper == 4 else tuple("i%d" % (1 + (3 * p + d_) % nper) for d_ in range(3))
+                r.features.append(impl.mk_feature(impl.Feat(1, "u7", cs, ((p, p + 1, 1),))))
         return r
     prods = []
     with warnings.catch_warnings():
@@ -316,7 +318,9 @@ def run(ctx):
             if build_two_level(random.Random(rs), kit) is None:
                 ctx.note("two-level-build-failed:" + kit)
                 continue
-            ctx.guard(check_case, {"recipe": ["two", kit, rs], "swap": rng.random() < 0.5, "cited": rng.random() < 0.4,
+            many = made == 1
+            ctx.guard(check_case, {"recipe": ["two", kit, rs], "swap": rng.random() < 0.5, "cited": many or rng.random() < 0.4,
+                                   "manyrefs": many,
                                    "twice": rng.random() < 0.25,
                                    "lower": [x for x in ("cv0", "cv1", "e0_0", "e0_1", "e1_0", "e1_1", "dv")
                                              if rng.random() < 0.5] if rng.random() < 0.3 else []})
